@@ -1,0 +1,76 @@
+//go:build verif
+
+package util
+
+// Contracts for the deductive verifier in /verif (govc).  This file contains comments only;
+// it is compiled only with -tags verif and declares nothing.
+
+// ---- type predicates (C04, C16, C01, C14) ---------------------------------------------------------------
+
+//@ spec isErrorT(t types.Type) bool = typeString(t) == "error"
+//@ spec isPtrT(t types.Type) bool = is(t, *types.Pointer)
+//@ spec isSliceT(t types.Type) bool = is(t, *types.Slice)
+//@ spec isBasicT(t types.Type) bool = is(t, *types.Basic)
+//@ spec isNamedT(t types.Type) bool = is(t, *types.Named)
+//@ spec isStructT(t types.Type) bool = is(underlying(t), *types.Struct)
+//@ spec derefT(t types.Type) types.Type = cond(is(t, *types.Pointer), ptrElem(as(t, *types.Pointer)), t)
+//@ spec elemT(t types.Type) types.Type = cond(is(t, *types.Slice), sliceElemType(as(t, *types.Slice)), nil)
+//@ spec pkgOfType(t types.Type) *types.Package =
+//@     cond(is(t, *types.Pointer), pkgOfType(ptrElem(as(t, *types.Pointer))),
+//@     cond(is(t, *types.Named), pkgOfObj(namedObj(as(t, *types.Named))), nil))
+//@
+//@ func IsErrorType(t) (r)
+//@   requires t != nil
+//@   ensures {C07,C14,C10} r == isErrorT(t)
+//@ func IsSliceType(t) (r)
+//@   ensures {C16,C04} r == isSliceT(t)
+//@ func IsBasicType(t) (r)
+//@   ensures {C16} r == isBasicT(t)
+//@ func IsNamedType(t) (r)
+//@   ensures r == isNamedT(t)
+//@ func IsPtr(t) (r)
+//@   ensures {C10,C02,C01} r == isPtrT(t)
+//@ func IsStructType(t) (r)
+//@   requires t != nil
+//@   ensures {C04,C05,C14} r == isStructT(t)
+//@ func IsInvalidType(t) (r)
+//@   requires t != nil
+//@   ensures {C14} r == (is(underlying(derefT(t)), *types.Basic) && basicKind(as(underlying(derefT(t)), *types.Basic)) == types.Invalid)
+//@ func DerefPtr(typ) (r)
+//@   ensures {C04,C10,C14} r == derefT(typ) && (typ != nil ==> r != nil)
+//@ func Deref(typ) (r, ok)
+//@   ensures {C08} r == derefT(typ) && ok == isPtrT(typ) && (typ != nil ==> r != nil)
+//@ func PkgOf(t) (r)
+//@   ensures {C06,C01} r == pkgOfType(t)
+//@ func SliceElement(t) (r)
+//@   ensures {C16} r == elemT(t) && (isSliceT(t) ==> r != nil)
+//@ func StringType() (r)
+//@   use T10()
+//@   ensures {C04} r != nil && r == stringTypeOf()
+//@ spec stringTypeOf() types.Type = typeOfObj(refOf(scopeLookup(types.Universe, "string")))
+//@
+//@ func ToTextList(doc) (r)
+//@   nilable doc
+//@   requires doc != nil ==> forall(i, 0, len(doc.List), doc.List[i] != nil)
+//@   ensures {C11} len(r) == cond(doc == nil, 0, len(doc.List))
+//@   ensures {C11} doc != nil ==> forall(i, 0, len(doc.List), r[i] == doc.List[i].Text)
+//@   ensures fresh(r)
+//@   loop 1 invariant $k <= len(doc.List) && len(list) == len(doc.List) && fresh(list)
+//@   loop 1 invariant forall(j, 0, $k, list[j] == doc.List[j].Text)
+
+// ---- getters and stringers (C04, C07) --------------------------------------------------------------------------
+
+//@ spec sigOf(m *types.Func) *types.Signature = as(typeOfObj(m), *types.Signature)
+//@ spec nResults(m *types.Func) int = tupleLen(sigResults(sigOf(m)))
+//@ spec nParams(m *types.Func) int = tupleLen(sigParams(sigOf(m)))
+//@ spec resultType(m *types.Func, i int) types.Type = typeOfObj(tupleAt(sigResults(sigOf(m)), i))
+//@ spec compliesGetter(m *types.Func) bool = nParams(m) == 0 && nResults(m) == 1 && !isErrorT(resultType(m, 0))
+//@
+//@ func CompliesGetter(m) (r)
+//@   use T3(m)
+//@   ensures {C04} r == compliesGetter(m)
+//@ func ParseGetterReturnTypes(m) (ret, retError, ok)
+//@   use T3(m)
+//@   ensures {C06,C07} ok == (nResults(m) == 1 || (nResults(m) == 2 && isErrorT(resultType(m, 1))))
+//@   ensures {C06,C07} ok ==> ret == resultType(m, 0) && ret != nil && retError == (nResults(m) == 2)
+//@   ensures !ok ==> ret == nil && !retError
